@@ -20,27 +20,27 @@ type dim struct {
 }
 
 var ssoDims = []dim{
-	{"transport", []string{"get-query", "post-body", "post-both", "get-noquery"}},
+	{"transport", []string{"get-query", "post-body", "post-both", "get-noquery", "post-query-replay"}},
 	{"encoding", []string{"default", "absent", "deflate", "bogus"}},
-	{"relay", []string{"rs-1", "", "a b&c=d/é\"<>"}},
+	{"relay", []string{"rs-1", "", "a b&c=d/é\"<>", "long"}},
 	{"sigalg", []string{"", "rsa-sha256", "rsa-sha1", "dsa-sha1", "dsa-sha256", "unknown"}},
-	{"sig", []string{"", "valid", "other-relay", "other-request", "garbage", "notb64", "foreign-key"}},
+	{"sig", []string{"", "valid", "other-relay", "other-request", "garbage", "notb64", "foreign-key", "der-seq"}},
 	{"payload", []string{"authn", "empty", "badb64", "baddeflate", "notxml", "wrongroot"}},
 	{"id", []string{"set", "empty", "absent"}},
 	{"version", []string{"set", "empty", "absent"}},
 	{"issuer", []string{"registered", "absent", "empty", "unregistered", "other-registered"}},
 	{"destination", []string{"absent", "advertised", "foreign", "trailing-slash", "upper-host"}},
 	{"notbefore", []string{"absent", "past", "future", "garbage", "past-nofrac", "past-9frac"}},
-	{"notonorafter", []string{"absent", "future", "past", "garbage"}},
+	{"notonorafter", []string{"absent", "future", "past", "garbage", "zero-time"}},
 	{"emptycond", []string{"no", "yes"}},
 	{"protobinding", []string{"absent", "post", "redirect", "artifact", "other"}},
-	{"acsurl", []string{"absent", "foreign"}},
+	{"acsurl", []string{"absent", "foreign", "prefix-foreign"}},
 	{"embedded", []string{"none", "valid", "valid-nokeyinfo", "valid-foreignkeyinfo", "tampered", "foreign-key", "empty-value", "keyinfo-nox509", "valid-wrappedcert"}},
 	{"style", []string{"0", "1", "2", "3"}},
 	{"escstyle", []string{"go", "lowerhex", "pct20"}},
 	{"reqsigned", []string{"absent", "false", "0", "true", "1"}},
 	{"certs", []string{"one-rsa", "none", "one-ec", "two-rsa", "one-rsa-encryption"}},
-	{"acs", []string{"post+redirect", "post", "redirect", "artifact", "none", "redirect-default-post", "paos+unknown", "no-spsso"}},
+	{"acs", []string{"post+redirect", "post", "redirect", "artifact", "none", "redirect-default-post", "paos+unknown", "no-spsso", "simplesign-only", "custom-first"}},
 	{"wantsigned", []string{"", "false", "true", "1"}},
 	{"lookup", []string{"ok", "fail"}},
 	{"create", []string{"ok", "fail"}},
@@ -110,6 +110,10 @@ func acsFor(label string) []AcsEntry {
 		return []AcsEntry{{"1", "", artifactBind, "https://sp.example.com/acs/artifact"}}
 	case "redirect-default-post":
 		return []AcsEntry{{"0", "", provider.PostBinding, "https://sp.example.com/acs/post"}, {"1", "true", provider.RedirectBinding, "https://sp.example.com/acs/redirect"}}
+	case "simplesign-only":
+		return []AcsEntry{{"1", "", "urn:oasis:names:tc:SAML:2.0:bindings:HTTP-POST-SimpleSign", "https://sp.example.com/acs/simplesign"}}
+	case "custom-first":
+		return []AcsEntry{{"0", "true", "urn:example:custom-binding", "https://sp.example.com/acs/custom"}, {"1", "", provider.PostBinding, "https://sp.example.com/acs/post"}}
 	case "paos+unknown":
 		return []AcsEntry{{"1", "", paosBind, "https://sp.example.com/acs/paos"}, {"2", "", "urn:example:unknown", "https://sp.example.com/acs/unknown"}}
 	}
@@ -129,6 +133,8 @@ type SsoRun struct {
 	Storage  *Storage
 	Prov     *provider.Provider
 	BuildErr string
+	// RelayActedOn is the RelayState the endpoint reads (FormValue: the body wins over the query)
+	RelayActedOn string
 }
 
 // SsoFacts are true by construction of the request (the harness knows what it signed and what it tampered with).
@@ -201,6 +207,8 @@ func timeLabel(l string, now time.Time) string {
 		return now.Add(10 * time.Minute).UTC().Format("2006-01-02T15:04:05.000Z")
 	case "garbage":
 		return "yesterday"
+	case "zero-time":
+		return "0001-01-01T00:00:00Z" // a valid instant of the supported lexical form, long past
 	}
 	return "-"
 }
@@ -310,6 +318,10 @@ func runSso(c Case) *SsoRun {
 	if c["acsurl"] == "foreign" {
 		doc.AcsURL = "https://evil.example.com/acs"
 	}
+	if c["acsurl"] == "prefix-foreign" {
+		// a foreign URL of which a registered consumer URL is a string prefix
+		doc.AcsURL = "https://sp.example.com/acs/post.attacker.test/acs"
+	}
 	if c["embedded"] == "keyinfo-nox509" {
 		doc.Extra = fmt.Sprintf(`<ds:Signature xmlns:ds="%s"><ds:SignedInfo/><ds:SignatureValue>AAAA</ds:SignatureValue><ds:KeyInfo><ds:KeyName>k</ds:KeyName></ds:KeyInfo></ds:Signature>`, nsDsig)
 	}
@@ -345,7 +357,7 @@ func runSso(c Case) *SsoRun {
 	}
 	// --- transport
 	binding := "post"
-	if c["transport"] == "get-query" || c["transport"] == "post-both" {
+	if c["transport"] == "get-query" || c["transport"] == "post-both" || c["transport"] == "post-query-replay" {
 		binding = "redirect"
 	}
 	f.Binding = binding
@@ -403,6 +415,9 @@ func runSso(c Case) *SsoRun {
 	f.RequestNonEmpty = payload != ""
 	// signature parameters
 	relay := c["relay"]
+	if relay == "long" {
+		relay = "rs-long-" + strings.Repeat("0123456789abcdef", 16)
+	}
 	sigAlg := ""
 	switch c["sigalg"] {
 	case "rsa-sha256":
@@ -439,6 +454,8 @@ func runSso(c Case) *SsoRun {
 		sig = base64.StdEncoding.EncodeToString([]byte("this is not a signature at all, just bytes"))
 	case "notb64":
 		sig = "%%%"
+	case "der-seq":
+		sig = "MAYCAQECAQE=" // DER SEQUENCE{INTEGER 1, INTEGER 1}: what a DSA verifier parses before it touches the key
 	case "foreign-key":
 		sig = cachedRedirSig(foreignKeys, payload, relay, signAlg, esc)
 	}
@@ -452,6 +469,7 @@ func runSso(c Case) *SsoRun {
 	if c["certs"] == "two-rsa" {
 		// NewServiceProvider refuses more than one signing certificate
 	}
+	relayActedOn := relay
 	form := url.Values{}
 	if encParam != "" {
 		form.Set("SAMLEncoding", encParam)
@@ -486,10 +504,28 @@ func runSso(c Case) *SsoRun {
 		form.Set("SAMLRequest", payload)
 		req.Method, req.Body, req.CType = "POST", form.Encode(), "application/x-www-form-urlencoded"
 		req.Query = "SAMLRequest=" + url.QueryEscape(deflateB64(`<decoy/>`))
+	case "post-query-replay":
+		// the URL query is a complete (possibly genuinely signed) redirect-binding request; the form body carries a
+		// different, unsigned message and RelayState.  FormValue lets the body win: the message acted on is the body's,
+		// so a signature over the query's values covers nothing of it.
+		form.Set("SAMLRequest", payload)
+		var parts []string
+		for _, k := range []string{"SAMLRequest", "RelayState", "SigAlg", "Signature", "SAMLEncoding"} {
+			if vs, ok := form[k]; ok {
+				parts = append(parts, k+"="+queryEsc(vs[0], esc))
+			}
+		}
+		req.Query = strings.Join(parts, "&")
+		forged := strings.Replace(xmlDoc, "id-4711", "id-forged", 1)
+		body := url.Values{"SAMLRequest": {deflateB64(forged)}, "RelayState": {relay + "-forged"}}
+		req.Method, req.Body, req.CType = "POST", body.Encode(), "application/x-www-form-urlencoded"
+		f.ParamSigValid = false
+		relayActedOn = relay + "-forged"
 	case "get-noquery":
 		req.Method = "GET"
 		f.RequestNonEmpty = false
 	}
+	r.RelayActedOn = relayActedOn
 	r.Req = req
 	f.FormParses = true
 	// --- document facts
@@ -504,7 +540,7 @@ func runSso(c Case) *SsoRun {
 	nbOK := c["notbefore"] == "absent" || strings.HasPrefix(c["notbefore"], "past")
 	noaOK := c["notonorafter"] == "absent" || c["notonorafter"] == "future"
 	f.TimeOK = nbOK && noaOK
-	f.TimeUnparseable = c["notbefore"] == "garbage" || c["notonorafter"] == "garbage"
+	f.TimeUnparseable = c["notbefore"] == "garbage" || c["notonorafter"] == "garbage" // "zero-time" parses, and is in the past
 	spFlag := sp.ReqSigned
 	if doc.Issuer == spEntityB {
 		// the issuer in effect is SP B: no signing requirement of its own, registered key = the "foreign" key pair
